@@ -14,7 +14,7 @@ import (
 func init() { Registry["C11"] = checkC11 }
 
 func checkC11(p *core.Prog, r *core.Report) {
-	r.Explanation = "Decides structural necessary conditions of ack-required locks: (R1) DoAckLock(lock, true) is called only from the two ack counters, each call on a path that saw a positive result, a still-pending hold, the decrement of its ack count and the count reaching zero, all tested under the ack table's mutex; any other call passes constant false; (R2) on the ack-pending arms of Lock / wakeUpWaitLock (require-ack flag, not yet persisted, persistable) the request is never answered SUCCED; (R3) every mutation of a hold found by LockId in Lock/UnLock follows the test ackCount == 0xff (not pending); (R4) DoAckLock's failure arm undoes the value (when the request carried one), logs the release of a persisted hold, removes the hold, answers RESULT_ERROR after the mutex and wakes waiters, in that order; in every function, the pending test (ackCount) of a hold is never evaluated after RemoveLock reset it; (R5) every failure source reaches the failure arm: AofFile.Flush acknowledges success only after both the record and the value write and negatively on every error return; AofChannel.HandleLock, the ack table's push/unlock/demotion/flush paths call DoAckLock(false); (R6) UpdateDBAckCount computes len(followers)+1 (all) or (len+1)/2+1 (majority). NOT decided: run-time ordering between flush, follower acks and reply; lost-ack behaviour."
+	r.Explanation = "Decides structural necessary conditions of ack-required locks: (R1) DoAckLock(lock, true) is called only from the two ack counters, each call on a path that saw a positive result, a still-pending hold, the decrement of its ack count and the count reaching zero, all tested under the ack table's mutex; any other call passes constant false; (R2) on the ack-pending arms of Lock / wakeUpWaitLock (require-ack flag, not yet persisted, persistable) the request is never answered SUCCED; (R3) every mutation of a hold found by LockId in Lock/UnLock follows the test ackCount == 0xff (not pending); (R4) DoAckLock's failure arm undoes the value (when the request carried one), logs the release of a persisted hold, removes the hold, answers RESULT_ERROR after the mutex and wakes waiters, in that order; in every function, the pending test (ackCount) of a hold is never evaluated after RemoveLock reset it; (R5) every failure source reaches the failure arm: AofFile.Flush acknowledges success only after both the record and the value write and negatively on every error return; AofChannel.HandleLock, the ack table's push/unlock/demotion/flush paths call DoAckLock(false); (R6) UpdateDBAckCount computes len(followers)+1 (all) or (len+1)/2+1 (majority). (R7) every publication of a new ack table is followed, before the manager mutex is released, by the recount that gives it the real acknowledgement requirement. NOT decided: run-time ordering between flush, follower acks and reply; lost-ack behaviour."
 	r.Assumptions = []string{"Go type checker and go/ssa are correct for /repo", "the ack table mutex (ackGlocks) serialises the two counters (checked for ackCount stores in C01-R3)"}
 	c11R1(p, r)
 	c11R2(p, r)
@@ -22,6 +22,7 @@ func checkC11(p *core.Prog, r *core.Report) {
 	c11R4(p, r)
 	c11R5(p, r)
 	c11R6(p, r)
+	c11R7(p, r)
 }
 
 func c11R1(p *core.Prog, r *core.Report) {
@@ -360,11 +361,11 @@ func c11R5(p *core.Prog, r *core.Report) {
 	// AofFile.Flush
 	if fn := mustFunc(p, r, "server.(*AofFile).Flush"); fn != nil {
 		ex := core.NewExplorer(p, core.Hooks{
-			Track: func(x *core.X, a core.Atom) bool { return strings.Contains(core.Plain(a.String()), ".ackIndex") },
+			// helpers of the same type are explored inline (a refactor may move the
+			// ack loop or a write into a method of AofFile)
+			Inline: func(x *core.X, c *ssa.Function) bool { return core.InModule(c) && recvName(c) == "AofFile" },
+			Track:  func(x *core.X, a core.Atom) bool { return strings.Contains(core.Plain(a.String()), ".ackIndex") },
 			Instr: func(x *core.X) {
-				if !x.Top() {
-					return
-				}
 				name, _ := core.CallName(x.Ins)
 				switch name {
 				case "Write":
@@ -376,7 +377,8 @@ func c11R5(p *core.Prog, r *core.Report) {
 						x.Set("dw", "1")
 					}
 				case "lockAcked":
-					if v, ok := constArg(x.Ins, 2); ok {
+					av := argCanon(x, x.Ins, 2)
+					if v, ok := map[string]int64{"true": 1, "false": 0}[av]; ok {
 						if v == 1 {
 							x.Set("acked", "1")
 							r.Hold(rule, siteKey(p, x.Ins), x.Pos(), "positive ack")
@@ -534,4 +536,91 @@ func c11R6(p *core.Prog, r *core.Report) {
 		},
 	})
 	ex.Run(fn, nil)
+}
+
+// c11R7: a database's ack table is created lazily with a placeholder
+// requirement of 1; the real requirement (all followers + 1, or the majority)
+// is written by UpdateDBAckCount, which visits the tables already stored in
+// ackDbs. So every path that publishes a new table must recount *after* the
+// store, before the manager's mutex is released - otherwise the first ack locks
+// of that database are reported acknowledged after a single event (the leader's
+// own flush).
+func c11R7(p *core.Prog, r *core.Report) {
+	const rule = "C11/R7"
+	r.Rule(rule, "every publication of a new ack table in ReplicationManager.ackDbs is followed, before the manager mutex is released, by UpdateDBAckCount", 1)
+	upd := mustFunc(p, r, "server.(*ReplicationManager).UpdateDBAckCount")
+	if upd == nil {
+		return
+	}
+	for _, fn := range p.FuncsIn("server") {
+		if fn.Blocks == nil {
+			continue
+		}
+		has := false
+		for _, b := range fn.Blocks {
+			for _, ins := range b.Instrs {
+				if st, ok := ins.(*ssa.Store); ok {
+					if ia, ok := st.Addr.(*ssa.IndexAddr); ok && isAckDbs(ia.X) {
+						if c, isConst := st.Val.(*ssa.Const); !isConst || c.Value != nil {
+							has = true
+						}
+					}
+				}
+			}
+		}
+		if !has {
+			continue
+		}
+		name := core.FuncName(fn)
+		pend := func(x *core.X, why string) {
+			if k := x.Get("pub"); k != "" {
+				r.Violate(rule, k, x.Get("pubpos"), "a new ack table is published but "+why+" without UpdateDBAckCount after the store: the table keeps the placeholder requirement of 1 acknowledgement", x.St.Trace)
+				x.Set("pub", "")
+			}
+		}
+		ex := core.NewExplorer(p, core.Hooks{
+			Instr: func(x *core.X) {
+				if !x.Top() {
+					return
+				}
+				if cl, acq, ok := trackLocks(x); ok {
+					if cl == "glock" && !acq {
+						pend(x, "the manager mutex is released")
+					}
+					return
+				}
+				if st, ok := x.Ins.(*ssa.Store); ok {
+					if ia, ok := st.Addr.(*ssa.IndexAddr); ok && isAckDbs(ia.X) && x.Canon(st.Val).S != "nil" {
+						x.Set("pub", name+": publish ack table")
+						x.Set("pubpos", x.Pos())
+					}
+				}
+				if core.StaticCallee(x.Ins) == upd {
+					if k := x.Get("pub"); k != "" {
+						r.Hold(rule, k, x.Get("pubpos"), "recount after publication")
+						x.Set("pub", "")
+					}
+				}
+			},
+			Exit: func(x *core.X, rets []core.Expr) { pend(x, "the function returns") },
+		})
+		ex.Run(fn, nil)
+		if ex.Imprecise != "" {
+			r.Fail("C11/R7 %s: %s", name, ex.Imprecise)
+		}
+	}
+}
+
+// isAckDbs: v is the (loaded) slice ReplicationManager.ackDbs.
+func isAckDbs(v ssa.Value) bool {
+	u, ok := v.(*ssa.UnOp)
+	if !ok {
+		return false
+	}
+	fa, ok := u.X.(*ssa.FieldAddr)
+	if !ok {
+		return false
+	}
+	k := core.FieldKeyOf(fa.X.Type(), fa.Field)
+	return k.Type == "server.ReplicationManager" && k.Field == "ackDbs"
 }
